@@ -127,7 +127,7 @@ open Qryn Qryn.Sql
 /-! ### `planMetric` as the composition of its phases -/
 /-- `matrixFunctionsLabelsIDX != -1`, with the outcome of `AnalyzeMetrics15sShortcut` as a parameter -/
 def matrixLabelsW (short : Bool) (q : MetricQuery) : Bool :=
-  (q.rangeAgg.isUnwrap && !short) || (match q.agg? with | some a => a.grouped | none => false)
+  (q.rangeAgg.isUnwrap && !short) || q.agg?.isSome
 
 /-- the planner state after the steps of the range node (range function, optional comparison); `short` = the
     metrics_15s shortcut is planned -/
@@ -139,7 +139,7 @@ def aggPhase (short : Bool) (c : MCtx) (q : MetricQuery) (s : PState) : Sel :=
   match q.agg? with
   | none => s.sel
   | some a => cmpOpt a.cmp (aggSel a.fn (matrixLabelsW short q)
-      (planByWithout c.toCtx (!q.rangeAgg.isUnwrap) (chosenGrouping a.byPrefix a.bySuffix) s).sel)
+      (planByWithout c.toCtx (!q.rangeAgg.isUnwrap) (some (aggGrouping a)) s).sel)
 
 def topkPhase (q : MetricQuery) (s : Sel) : Sel :=
   match q with
@@ -213,11 +213,9 @@ theorem grouped_of_chosen (a : VecAgg) (g : Grouping) (hg : chosenGrouping a.byP
   | some x => simp
   | none => rw [hb] at hg; simp only at hg; rw [hg]; simp
 
-/-- the supported shapes above the range node: a vector aggregation has a grouping clause and a modelled operator -/
-def aggOk (q : MetricQuery) : Prop :=
-  match q.agg? with
-  | none => True
-  | some a => (chosenGrouping a.byPrefix a.bySuffix).isSome ∧ a.fn ≠ .stddev ∧ a.fn ≠ .stdvar
+/-- (kept for the statements that name it) every vector aggregation is covered: without a grouping clause `planAgg` plans
+    the grouping of the empty label list (the `fix:` of C08/agg-without-grouping-keeps-streams) -/
+def aggOk (_q : MetricQuery) : Prop := True
 
 /-- points of the direct reading above the range stage (before step re-bucketing) -/
 def upperPts (o : Oracles) (c : MCtx) (d : LokiDb) (q : MetricQuery) (p0 : List Pt) : List Pt :=
@@ -312,11 +310,8 @@ theorem planPhases_of_range (short : Bool) (o : Oracles) (c : MCtx) (hn : c.name
       rfl
     | agg a => simp [MetricQuery.agg?] at hagg
   | some a =>
-    have hok' : (chosenGrouping a.byPrefix a.bySuffix).isSome ∧ a.fn ≠ .stddev ∧ a.fn ≠ .stdvar := by
-      unfold aggOk at hok; rw [hagg] at hok; exact hok
-    obtain ⟨g, hg⟩ := Option.isSome_iff_exists.mp hok'.1
-    have hgr : a.grouped = true := grouped_of_chosen a g hg
-    have hml : matrixLabelsW short q = true := by unfold matrixLabelsW; simp [hagg, hgr]
+    obtain ⟨g, hg⟩ : ∃ g, aggGrouping a = g := ⟨_, rfl⟩
+    have hml : matrixLabelsW short q = true := by unfold matrixLabelsW; simp [hagg]
     have hA : aggPhase short c q (rangeState short c q) =
         cmpOpt a.cmp (aggSel a.fn true (byWithoutTS c.toCtx (labelConds q.rangeAgg.sel).length g (rangeState short c q).sel)) := by
       unfold aggPhase
@@ -324,8 +319,8 @@ theorem planPhases_of_range (short : Bool) (o : Oracles) (c : MCtx) (hn : c.name
       simp only [hml, hun, Bool.not_false, hg, planByWithout, if_true, hid]
     have hU1 : (match q.agg? with
         | some a => cmpStage a.cmp (aggStage o c.toCtx d q.rangeAgg.sel a p0)
-        | none => p0) = cmpStage a.cmp (aggCore a.fn (p0.map (regroupPt o c.toCtx d q.rangeAgg.sel g))) := by
-      rw [hagg]; simp only [aggStage_eq, hg, Option.getD_some]
+        | none => p0) = cmpStage a.cmp (aggCore o a.fn (p0.map (regroupPt o c.toCtx d q.rangeAgg.sel g))) := by
+      rw [hagg]; simp only [aggStage_eq]; rw [← hg]; rfl
     rw [hA]
     unfold joinPhase upperPts
     rw [hml, hU1]
@@ -333,10 +328,10 @@ theorem planPhases_of_range (short : Bool) (o : Oracles) (c : MCtx) (hn : c.name
     have h2 := hr.byWithoutTS hn hm (fun p hp => (hstream p hp).2) (labelConds q.rangeAgg.sel).length g
       (by intro hmem; have := Alias.named.inj (hLr _ hmem); revert this; str_ne)
       (by intro hmem; have := Alias.named.inj (hLr _ hmem); revert this; str_ne)
-    have h3 := h2.agg a.fn hok'.2 a.cmp (by
+    have h3 := h2.agg a.fn a.cmp (by
       simp only [List.mem_append, List.mem_cons, List.not_mem_nil, or_false, Alias.named.injEq, not_or]
       refine ⟨hfreshLr _ (by decide), ?_, ?_⟩ <;> (apply Ne.symm; str_ne))
-    have hreg : ∀ p ∈ cmpStage a.cmp (aggCore a.fn (p0.map (regroupPt o c.toCtx d q.rangeAgg.sel g))), Regrouped p := by
+    have hreg : ∀ p ∈ cmpStage a.cmp (aggCore o a.fn (p0.map (regroupPt o c.toCtx d q.rangeAgg.sel g))), Regrouped p := by
       apply cmpStage_labels
       apply aggCore_regrouped
       intro p hp
@@ -356,7 +351,7 @@ theorem planPhases_of_range (short : Bool) (o : Oracles) (c : MCtx) (hn : c.name
         (hfreshL3 _ (by decide) (by decide) (by intro k; str_ne) (by intro k; str_ne))
         (hfreshL3 _ (by decide) (by decide) (by intro k; str_ne) (by intro k; str_ne))
       have hreg2 : ∀ p ∈ cmpStage t.cmp (topkStage t.isTop t.k
-          (cmpStage a.cmp (aggCore a.fn (p0.map (regroupPt o c.toCtx d (MetricQuery.topk t).rangeAgg.sel g))))), Regrouped p :=
+          (cmpStage a.cmp (aggCore o a.fn (p0.map (regroupPt o c.toCtx d (MetricQuery.topk t).rangeAgg.sel g))))), Regrouped p :=
         cmpStage_labels _ _ _ (fun p hp => hreg p (topkStage_sub _ _ _ p hp))
       have h5 := h4.stepFix (MetricQuery.topk t).rangeAgg.durNs true (by
           rw [cols_cmpOpt, topkSel_eq, cols_with, hasLabels_agg]
@@ -395,13 +390,13 @@ theorem rangeState_lra (c : MCtx) (q : MetricQuery) (fn : RangeFn) (hk : q.range
     query shape: the matrix of the direct reading over the entries of `[from, to)` -/
 theorem planPhases_lra (o : Oracles) (c : MCtx) (hn : c.namesOk) (d : LokiDb) (q : MetricQuery) (fn : RangeFn)
     (hk : q.rangeAgg.kind = .lra fn) (hok : aggOk q)
-    (hm : q.rangeAgg.sel.matchers.length ≤ 63) (hms : 1000000 ∣ q.rangeAgg.durNs) (hd : 0 < q.rangeAgg.durNs) :
+    (hm : q.rangeAgg.sel.matchers.length ≤ 63) (hd : 0 < q.rangeAgg.durNs) :
     (evalSelA o (d.toDbM c) (planPhases false c q)).map normRow = matrixPts o c d q c.fromNs c.toNs := by
   have hrs := rangeState_lra c q fn hk
   apply planPhases_of_range false o c hn d q hm (isUnwrap_lra _ fn hk) hok
     (cmpStage q.rangeAgg.cmp (lraPts fn q.rangeAgg.durNs (d.samples.filter (entryMatches o c.toCtx d q.rangeAgg.sel))))
     [.named "agg_a"] (by simp)
-  · rw [hrs]; exact lraPhase_ok o c hn d q.rangeAgg.sel hm fn q.rangeAgg.durNs hms hd q.rangeAgg.cmp
+  · rw [hrs]; exact lraPhase_ok o c hn d q.rangeAgg.sel hm fn q.rangeAgg.durNs hd q.rangeAgg.cmp
   · rw [hrs]
   · exact cmpStage_labels _ _ _ (lraPts_stream fn _ _)
   · rw [hrs]; exact hasLabels_lra _ _ _ _
@@ -412,9 +407,9 @@ theorem planPhases_lra (o : Oracles) (c : MCtx) (hn : c.namesOk) (d : LokiDb) (q
     topk/bottomk, with any of the three comparisons, for step ≤ range and step > range alike. -/
 theorem planMetric_lra (o : Oracles) (c : MCtx) (hn : c.namesOk) (d : LokiDb) (q : MetricQuery) (fn : RangeFn)
     (hk : q.rangeAgg.kind = .lra fn) (hs : takesShortcut q = false) (hok : aggOk q)
-    (hm : q.rangeAgg.sel.matchers.length ≤ 63) (hms : 1000000 ∣ q.rangeAgg.durNs) (hd : 0 < q.rangeAgg.durNs) :
+    (hm : q.rangeAgg.sel.matchers.length ≤ 63) (hd : 0 < q.rangeAgg.durNs) :
     (evalSelA o (d.toDbM c) (planMetric c q)).map normRow = evalMetric o c d q := by
-  rw [planMetric_phases, hs, planPhases_lra o c hn d q fn hk hok hm hms hd, evalMetric_matrixPts]
+  rw [planMetric_phases, hs, planPhases_lra o c hn d q fn hk hok hm hd, evalMetric_matrixPts]
   unfold effWindow
   simp [hs]
 
